@@ -2,7 +2,7 @@
 contain the group."""
 import ast
 
-from sa.astutil import (call_name, calls_in, dotted, norm, walk_no_nested, try_fold,
+from sa.astutil import (facts_at, call_name, calls_in, dotted, norm, walk_no_nested, try_fold,
                         names_in, last_attr, guards_of, fact_texts, enclosing_loops,
                         format_fields, concat_str)
 from sa.loader import AnalysisError
@@ -170,6 +170,38 @@ def run(ctx):
     ctx.ob('C08.R4', 'top-up:residue-type-guard', ok,
            'an atom is copied into a conformation only when the residue already present under '
            'the same residue key has the same residue name', cc, copies[0] if copies else tu)
+    # the residue table the guard consults must learn the residues that are
+    # copied in: otherwise a residue missing from this conformation is filled
+    # from two other conformations with two different residue types
+    if len(copies) == 1:
+        guard_names = set()
+        for e, _p in facts_at(copies[0], tu):
+            if 'res_name' in norm(e):
+                guard_names |= {n.id for n in ast.walk(e) if isinstance(n, ast.Name)}
+        tables = []
+        for st in walk_no_nested(tu):
+            if isinstance(st, ast.Assign) and isinstance(st.targets[0], ast.Name) \
+                    and st.targets[0].id in guard_names \
+                    and isinstance(st.value, (ast.DictComp, ast.Dict, ast.Call)) \
+                    and 'self.atoms' in norm(st.value):
+                tables.append(st.targets[0].id)
+        loops = enclosing_loops(copies[0], tu)
+        learned = {}
+        for tname in tables:
+            learned[tname] = False
+            for n in ast.walk(loops[0]) if loops else []:
+                if isinstance(n, ast.Call) and last_attr(n) in ('setdefault', 'update') \
+                        and norm(n.func.value) == tname:
+                    learned[tname] = True
+                if isinstance(n, ast.Subscript) and isinstance(n.ctx, ast.Store) \
+                        and norm(n.value) == tname:
+                    learned[tname] = True
+        ctx.ob('C08.R4', 'top-up:residue-table-learns-copies', all(learned.values()),
+               'the residue-name table the guard consults is snapshotted before the loop (%s) and '
+               'is extended inside the loop for every residue that is copied in, so the first '
+               'residue type copied for a missing residue wins and a second type is refused '
+               '(extended: %s)' % (tables or 'none: recomputed from self.atoms', learned),
+               cc, copies[0])
     ok2 = False
     if len(copies) == 1:
         facts = fact_texts(copies[0], tu)
